@@ -83,11 +83,16 @@ CompleteOK(e, ev, S) ==
             (x[1] = ev.db /\ ~(x \in CmdKeys(e)) /\ (Volatile(e.policy) => (st[x].d # NoD /\ S[x].d # NoD)))
                 => x \in CandKeys(ev)
 
-RECURSIVE EvictFold(_, _, _, _)
-EvictFold(e, evs, S, strict) ==
+\* the evictions of one step happen one after the other: each one sees the figure the previous one left behind
+\* (m = that figure, -1 before the first), so none of them removes a key that was no longer needed
+RECURSIVE EvictFoldM(_, _, _, _, _)
+EvictFoldM(e, evs, S, strict, m) ==
     IF evs = <<>> THEN TRUE
-    ELSE /\ EvictOK(e, Head(evs), S, strict) /\ CompleteOK(e, Head(evs), S)
-         /\ EvictFold(e, Tail(evs), Minus(S, {<<Head(evs).db, Head(evs).key>>}), strict)
+    ELSE LET ev == Head(evs)   x == <<ev.db, ev.key>> IN
+         /\ EvictOK(e, ev, S, strict) /\ CompleteOK(e, ev, S)
+         /\ (m >= 0 => ev.membefore = m)
+         /\ EvictFoldM(e, Tail(evs), Minus(S, {x}), strict, ev.membefore - EntryMem(S, x))
+EvictFold(e, evs, S, strict) == EvictFoldM(e, evs, S, strict, -1)
 
 Gone(e) == {<<e.evicts[i].db, e.evicts[i].key>> : i \in DOMAIN e.evicts}
 
